@@ -42,8 +42,33 @@ def candidates(m):
 
 
 def class_blocks(text):
-    """py::class_ statements (up to the terminating ';\\n')"""
-    return re.findall(r'\n    py::class_<.*?;\n', text, re.S)
+    """py::class_ statements: from `py::class_<` to the `;` that ends the statement (brackets and string literals
+    respected), so that the white space the generator puts between statements is not part of a block"""
+    out = []
+    for m in re.finditer(r'py::class_<', text):
+        i, depth, n = m.start(), 0, len(text)
+        j = i
+        while j < n:
+            c = text[j]
+            if c == '"':
+                j += 1
+                while j < n and text[j] != '"':
+                    if text[j] == '\\':
+                        j += 1
+                    j += 1
+            elif c == "'" and j + 2 < n and text[j + 2] == "'":
+                j += 2
+            elif c == "'" and j + 3 < n and text[j + 1] == '\\' and text[j + 3] == "'":
+                j += 3
+            elif c in '([{':
+                depth += 1
+            elif c in ')]}':
+                depth -= 1
+            elif c == ';' and depth == 0:
+                break
+            j += 1
+        out.append(text[i:j + 1])
+    return out
 
 
 def case(idx, payload):
